@@ -46,6 +46,9 @@ pub struct Cfg {
     pub ngram: usize,
     pub max_features: usize,
     pub words: usize,
+    /// size-threshold stratum for the numeric transformers: 65..=70 feature columns on >= 80 rows
+    #[serde(default)]
+    pub wide: bool,
 }
 
 const WORDS: [&str; 24] = [
@@ -96,8 +99,9 @@ fn model_bytes<T: Serialize>(out: &mut Out, name: &str, m: &T) {
 impl Runnable for Cfg {
     fn run(&self) -> Out {
         let mut out = Out::new();
-        let p = self.p.max(2);
-        let x = data::gaussian(self.data_seed, self.n, p);
+        let p = if self.wide { 65 + self.p % 6 } else { self.p.max(2) };
+        let n = if self.wide { self.n.max(80) } else { self.n };
+        let x = data::gaussian(self.data_seed, n, p);
         let q = data::gaussian(self.data_seed ^ 0x17, 25, p);
         match self.algo {
             Algo::LinearScaler => {
@@ -203,7 +207,7 @@ impl Runnable for Cfg {
                 out.text("pearson:display", &format!("{c}"));
             }
             Algo::Shuffle => {
-                let y = data::labels(self.data_seed, self.n, 3);
+                let y = data::labels(self.data_seed, n, 3);
                 let ds = DatasetBase::new(x, y);
                 let mut rng = Xoshiro256Plus::seed_from_u64(self.rng_seed);
                 let s = ds.shuffle(&mut rng);
@@ -213,12 +217,12 @@ impl Runnable for Cfg {
                 out.arr("shuffle:second_records", s2.records());
             }
             Algo::Bootstrap => {
-                let y = data::labels(self.data_seed, self.n, 3);
+                let y = data::labels(self.data_seed, n, 3);
                 let ds = DatasetBase::new(x, y);
                 let mut rng = Xoshiro256Plus::seed_from_u64(self.rng_seed);
                 match self.variant % 3 {
                     0 => {
-                        for (i, b) in ds.bootstrap_samples(self.n / 2 + 1, &mut rng).take(3).enumerate() {
+                        for (i, b) in ds.bootstrap_samples(n / 2 + 1, &mut rng).take(3).enumerate() {
                             out.arr(&format!("bootstrap_samples:records{i}"), b.records());
                             out.arr_usize(&format!("bootstrap_samples:targets{i}"), b.targets());
                         }
@@ -229,7 +233,7 @@ impl Runnable for Cfg {
                         }
                     }
                     _ => {
-                        for (i, b) in ds.bootstrap((self.n / 2 + 1, p), &mut rng).take(3).enumerate() {
+                        for (i, b) in ds.bootstrap((n / 2 + 1, p), &mut rng).take(3).enumerate() {
                             out.arr(&format!("bootstrap:records{i}"), b.records());
                             out.arr_usize(&format!("bootstrap:targets{i}"), b.targets());
                         }
@@ -252,6 +256,7 @@ impl Runnable for Cfg {
             Algo::Bootstrap => "seeded_bootstrap",
         });
         let text = matches!(self.algo, Algo::CountVectorizer | Algo::TfIdf);
+        obs.class_if(self.wide && !text, "more_than_64_features");
         let mut vocab = 0usize;
         if let Some(crate::driver::Outcome::Done(o)) = runs.first().map(|r| &r.outcome) {
             vocab = o.note_of("vocabulary").and_then(|s| s.parse().ok()).unwrap_or(0);
@@ -279,8 +284,8 @@ pub fn strategy(tier: Tier) -> impl Strategy<Value = Cfg> {
         1 => Just(Algo::Shuffle),
         2 => Just(Algo::Bootstrap),
     ];
-    (algo, any::<u64>(), any::<u64>(), 8usize..=max_n, 2usize..=5, any::<u8>(), 1usize..=3, 0usize..=12, 3usize..=24).prop_map(
-        |(algo, data_seed, rng_seed, n, p, variant, ngram, max_features, words)| Cfg {
+    (algo, any::<u64>(), any::<u64>(), 8usize..=max_n, 2usize..=5, any::<u8>(), 1usize..=3, 0usize..=12, 3usize..=24, proptest::bool::weighted(0.12)).prop_map(
+        |(algo, data_seed, rng_seed, n, p, variant, ngram, max_features, words, wide)| Cfg {
             algo,
             data_seed,
             rng_seed,
@@ -290,6 +295,7 @@ pub fn strategy(tier: Tier) -> impl Strategy<Value = Cfg> {
             ngram,
             max_features,
             words,
+            wide,
         },
     )
 }
